@@ -338,6 +338,16 @@ def catalogue():
                ("score_feature_matrix", lambda obj, d, layout: ((lambda X=lay(d["X"], layout): (lambda: obj.score_feature_matrix(X), {"X": X}))()))]
         return (factory, "required", fit, ops)
     cat["DirectionalConvexHull"] = dch_entry()
+    # hyper-parameter switches between the fits of a history ("small" / "large" select the two settings).  Only behaviour is
+    # compared for these entries (follow-up calls against a fresh estimator with the new setting): an unused attribute left
+    # behind by the other setting (centerer_, max_components_) is not a difference the property talks about.
+    cat["KernelPCovR[center switch]"] = xy_est(lambda s: KernelPCovR(mixing=0.5, n_components=2, kernel="rbf", gamma=0.1, center=(s == "small")),
+                                               ["transform", "predict", "score"])
+    cat["PCovR[space switch]"] = xy_est(lambda s: PCovR(mixing=0.5, n_components=2, space="feature" if s == "small" else "sample"), ["transform", "predict", "score"])
+    cat["OrthogonalRegression[mode switch]"] = xy_est(lambda s: OrthogonalRegression(use_orthogonal_projector=(s == "small")), ["predict"])
+    cat["KernelNormalizer[center switch]"] = (lambda size: KernelNormalizer(with_center=(size == "small")),) + cat["KernelNormalizer"][1:]
+    cat["SparseKernelCenterer[center switch]"] = (lambda size: SparseKernelCenterer(with_center=(size == "small")),) + cat["SparseKernelCenterer"][1:]
+    cat["StandardFlexibleScaler[mean/std switch]"] = (lambda size: StandardFlexibleScaler(with_mean=(size == "small"), with_std=(size != "small")),) + cat["StandardFlexibleScaler"][1:]
     return cat
 
 
@@ -346,6 +356,7 @@ def est_trace(tid, name, entry, hist, dataA, dataB, layout):
     factory, ymode, fit, ops = entry
     rec = Rec()
     data = {"A": dataA, "B": dataB}
+    fit_out = (lambda ret: []) if "switch" in name else None        # behaviour-only entries: see catalogue()
 
     base_layout = "f32" if layout == "f32" else "C"      # single-precision inputs have their own registers
 
@@ -360,7 +371,7 @@ def est_trace(tid, name, entry, hist, dataA, dataB, layout):
         seen.add(k)
         o = factory(st["n"])
         fn, args = fit(o, data[st["d"]], st["y"], base_layout)
-        _, raised = rec.call("fit", fn, args, obj=o, key=key(*k), fresh=True)
+        _, raised = rec.call("fit", fn, args, obj=o, key=key(*k), fresh=True, out_fn=fit_out)
         if not raised:
             for opn, op in ops:
                 fn2, a2 = op(o, data[st["d"]], base_layout)
@@ -376,7 +387,7 @@ def est_trace(tid, name, entry, hist, dataA, dataB, layout):
                     continue          # a user-supplied sub-estimator stays the SAME instance across the history
                 setattr(o, kk, vv)
         fn, args = fit(o, data[st["d"]], st["y"], layout)
-        _, raised = rec.call("fit", fn, args, obj=o, key=key(st["d"], wy, st["n"]), relation="refit" if i > 0 else "repeat")
+        _, raised = rec.call("fit", fn, args, obj=o, key=key(st["d"], wy, st["n"]), relation="refit" if i > 0 else "repeat", out_fn=fit_out)
         if raised:
             break
         # follow-up calls after EVERY fit of the history (lazily cached state must not survive a refit)
@@ -390,16 +401,16 @@ def est_trace(tid, name, entry, hist, dataA, dataB, layout):
         d = data[st["d"]]
         wy = bool(st["y"]) or ymode == "required"
         try:
-            if name == "SparseKernelCenterer":
+            if name.startswith("SparseKernelCenterer"):
                 A = d["X"][:4]
                 Knm, Kmm = d["X"] @ A.T, A @ A.T
                 args = {"Knm": Knm, "Kmm": Kmm}
                 fn = (lambda: o2.fit_transform(Knm, Kmm, sample_weight=d["w"])) if st["y"] else (lambda: o2.fit_transform(Knm, Kmm))
-            elif name == "KernelNormalizer":
+            elif name.startswith("KernelNormalizer"):
                 K = d["X"] @ d["X"].T
                 args = {"K": K}
                 fn = (lambda: o2.fit_transform(K, sample_weight=d["w"])) if st["y"] else (lambda: o2.fit_transform(K))
-            elif name == "StandardFlexibleScaler":
+            elif name.startswith("StandardFlexibleScaler"):
                 X = d["X"].copy(); args = {"X": X}
                 fn = (lambda: o2.fit_transform(X, sample_weight=d["w"])) if st["y"] else (lambda: o2.fit_transform(X))
             elif name.startswith("feature."):
